@@ -66,6 +66,10 @@ CHECKS = {
    text="spec/Pipes.tla transcribes pipes.go and the target's mutation entry points (queue duplicate detection, Remove shortcut, pop-then-run loop). TLC checks FollowsAtQuiescence, BindAnyMirrors and SourceNeverBlocked over toggle bursts of up to 5-8 source mutations on 1-2 piped states with every delivery order. The spec variant the code refines is selected by trace-validating probe runs (strict variant first), and every complete behaviour TLC enumerates for that variant is forced on the real machines: an am.Api proxy of the target gates each forwarded call, and TLC trace validation evaluates the formulas on the logged source and target sets at every observed joint quiescence. Gated random schedules and free-running bursts cover Bind, BindMany, BindReady, BindStart, BindErr, BindConnected, BindAny and the flat variants.",
    note="Exhaustive only within the stated bounds. Non-local targets are an IsLocal()=false proxy (no rpc NetworkMachine). The target has no relations or handlers, so it never vetoes (the property's premise). Trusted base: TLC, the proxy/gate harness.",
    technique="TLA+/TLC model checking, TLC-generated schedule replay through a gated target proxy, ndjson trace validation"),
+ "C19": dict(level="model_checking", design_ref="DESIGN.md §4 C19", engine="schemas",
+   text="Every exported schema variable found by a go/parser scan is evaluated in the current tree by a generated program; TLC decides ParsesClean, RefsDefined (raw vs parsed, dropped references), NoRequireCycle, NoRequireRemoveConflict and NamesAgree on the dumped JSON. TLC (spec/MCSchemas.tla, Transition!RunTx to quiescence, VIEW = active set) explores Add1/Remove1 from the empty machine with RequireClosed and GroupExclusive (maximal mutual-Remove cliques and declared groups) as invariants; every explored edge is re-executed on a real am.Machine (Import-injected source), the reached state sets must equal the real machine's own BFS, and TLC evaluates the two formulas on every set and path step the real machine produced.",
+   note="Exhaustive per schema only where coverage.schemas[..].mode = full (states x ops <= 10^5 quick, 2*10^6 thorough); larger schemas are exhaustive over the relation core or per exclusive-group cluster (calls restricted to those states), plus tlc -simulate and a bounded real-machine BFS on the full schema. Mixin fragments are completed with the predefined Start. Source sets are injected through Machine.Import (cross-checked by path replay on a seeded sample). Set comparison, not order. internal/testing and the nested wasm_workflow module cannot be imported and are listed as not evaluated. Trusted base: TLC, go/parser discovery, the generated dump program.",
+   technique="TLA+/TLC model checking with TLC-generated edges replayed on the real machine + ndjson trace validation of the real machine's BFS"),
  "C20": dict(level="model_checking", design_ref="DESIGN.md §4 C20", engine="api",
    text="TLC checks on MCApiAlgebra that the Go-source model of every list / Time / queue helper satisfies the set-theoretic meaning of its name for all inputs over 3 known names plus 1 unknown (lists <= 3 with duplicates, 0-2 variadic lists, queues <= 3 with every Position), and checks a lifecycle model for copy semantics and wait/ask outcomes. The Go driver enumerates the same input space on the real functions, mutates every getter's return value and drives every Sync / Cant / Ask helper through accepted, vetoed, queued and disposed outcomes; TLC evaluates the law on every logged result. Every exported function and method (go/parser table plus reflection, so additions are covered) is called in 6 lifecycle phases x 4 argument classes inside journalled worker processes (a fatal stack overflow or deadlock is attributed to the journalled call).",
    note="Algebra, copy semantics and helpers are exhaustive within the stated bounds; the totality sweep is exploration (one representative value per argument class); documented panics (unknown state names, empty Eval source) are outside the premise and not generated. Trusted base: TLC, reflection / go/parser table generation, the worker-process journal.",
@@ -106,7 +110,8 @@ def main():
                    source_commits=[l.strip() for l in open(os.path.join(ROOT, "hooks_commits.txt")) if l.strip()]
                    if os.path.exists(os.path.join(ROOT, "hooks_commits.txt")) else [],
                    add_only=True),
-        engines=[dict(name="supervisor", path="spec/Supervisor.tla spec/MCSupervisor.tla spec/TraceSupervisor.tla spec/SupSchema.tla harness/supdrv tools/supervisorcheck.py", serves_properties=["C15"], kind_free_text="TLA+ model of the node supervisor on top of Transition!RunTx; real supervisor driven through TestFork/TestKill gates"),
+        engines=[dict(name="schemas", path="spec/Schemas.tla spec/MCSchemas.tla spec/TraceSchemas.tla harness/schemas tools/schemascheck.py", serves_properties=["C19"], kind_free_text="TLA+ well-formedness formulas and reachable-set exploration of every shipped schema on the resolver transcription; edges replayed on real machines, real BFS validated"),
+                 dict(name="supervisor", path="spec/Supervisor.tla spec/MCSupervisor.tla spec/TraceSupervisor.tla spec/SupSchema.tla harness/supdrv tools/supervisorcheck.py", serves_properties=["C15"], kind_free_text="TLA+ model of the node supervisor on top of Transition!RunTx; real supervisor driven through TestFork/TestKill gates"),
                  dict(name="debugger", path="spec/Debugger.tla spec/MCDebugger.tla spec/TraceDebugger.tla harness/dbgdrv tools/debuggercheck.py", serves_properties=["C16"], kind_free_text="TLA+ model of am-dbg's record derivation, look-ups and cursor/filter machine; headless debugger driven and validated"),
                  dict(name="rpcsync", path="spec/RpcSync*.tla spec/MCRpcSync*.tla spec/TraceRpcSync.tla harness/rpcdrv tools/rpcsynccheck.py", serves_properties=["C09"], kind_free_text="TLA+ protocol model; forced schedules over an in-memory link; trace validation"),
                  dict(name="rpcdiff", path="spec/RpcDiff.tla spec/MCRpcDiff.tla spec/TraceRpcDiff.tla harness/rpcdiff tools/rpcdiffcheck.py", serves_properties=["C10"], kind_free_text="TLA+ transcription of the clock-diff codec; function-level conformance"),
